@@ -376,7 +376,7 @@ func ruleR3_3(r *Run) {
 					continue
 				}
 				construct := fmt.Sprintf("%s:%s.%s", fname(f), typ, fld)
-				if reason, ok := r.exception(construct); ok {
+				if reason, ok := r.exceptionFor("R3.3", construct); ok {
 					r.ok(construct, "exception: "+reason, w.pos(in.Pos()))
 					continue
 				}
